@@ -555,6 +555,10 @@ func main() {
 		scaleFamily(c)
 		return
 	}
+	if os.Getenv("C03_ONLY") == "values" { // development aid: the round-4 value streams alone
+		valueFamily(c)
+		return
+	}
 	// exhaustive small scope
 	for n0 := 0; n0 <= 4; n0++ {
 		depth := 2
@@ -582,5 +586,6 @@ func main() {
 	for i := c.Count(1500, 20000); i > 0; i-- {
 		bigValueCase(c)
 	}
+	valueFamily(c)
 	scaleFamily(c)
 }
